@@ -328,7 +328,7 @@ example :
 /-- Map with 2 workers over 1 2 3, cancelled while one worker is blocked sending and the consumer
     is parked: a non-terminal stopped state (the hypotheses of `fanout_no_deadlock_after_stop`) -/
 example :
-    let c : FanOut.Cfg := { n := 2, hasOut := true, outCap := 0, hasCloser := true, closerCtx := true, onceGo := false, lazy := true }
+    let c : FanOut.Cfg := { n := 2, hasOut := true, outCap := 0, hasCloser := true, closerCtx := true, onceGo := false, lazy := true, workerCancels := true }
     ∃ s, FanOut.run c (FanOut.init c [1, 2, 3] 0 1) [.cStart, .wAdvance, .wAdvance, .rRead, .rHandoff, .rRead, .cancel] = some s ∧
       s.ucancel = true ∧ s.allExited c = false ∧ s.cons = .parked ∧ c.wf := by
   refine ⟨_, rfl, ?_, ?_, ?_, ?_⟩ <;> decide
